@@ -47,6 +47,10 @@ def run(ctx, rep):
         rep.floor("R3", "states that can shift `error` for %s" % nt, seen.get(nt, 0), 1)
     rep.analysed["automaton states"] = a["state_count"]
     recovery_model(ctx, rep, a)
+    # ---- R7: the recovered error always becomes a diagnostic
+    rep.rule("R7", "inherits C03 S2 / S4 and C20 F3 (re-evaluated here): from_error_recovery returns a diagnostic whenever from_parse_error does (no case - e.g. 'nothing was dropped' - is discarded), with the kind and range of the conversion")
+    import c03
+    c03.recovery_keeps_range(ctx, rep, "C14")
     # ---- R6: the tree of a file with a malformed member goes through the same pipeline as any other
     rep.rule("R6", "inherits C12 H7: Parser::validate hands EVERY stored result to validation::validate (no file is returned unvalidated because it has syntax diagnostics: its surviving members would keep unresolved types / unpropagated oneway)")
     import c12
